@@ -122,6 +122,43 @@ def handle (s : St) (line : String) : Except String (St × String) := do
     let k ← (← j.getObjVal? "k").getStr?
     let back ← (← j.getObjVal? "back").getNat?
     return finish s (opSetNoneNeg fuel s.h n k back SqlglotModel.Generated.C08.negativeIndexNormalised)
+  | "root" =>
+    let n ← (← j.getObjVal? "n").getNat?
+    match rootOf fuel s.h n with
+    | some r => return (s, "r " ++ toString r ++ "|" ++ dump s)
+    | none => return (s, "fail|")
+  | "depth" =>
+    let n ← (← j.getObjVal? "n").getNat?
+    match depthOf fuel s.h n with
+    | some d => return (s, "r " ++ toString d ++ "|" ++ dump s)
+    | none => return (s, "fail|")
+  | "find_ancestor" =>
+    let n ← (← j.getObjVal? "n").getNat?
+    let c ← (← j.getObjVal? "cls").getStr?
+    match opFindAncestor (fun k => k == c) fuel s.h n with
+    | some (some a) => return (s, "r " ++ toString a ++ "|" ++ dump s)
+    | some none => return (s, "r -|" ++ dump s)
+    | none => return (s, "fail|")
+  | "unnest" =>
+    let n ← (← j.getObjVal? "n").getNat?
+    match unnestOf fuel s.h n with
+    | some (some a) => return (s, "r " ++ toString a ++ "|" ++ dump s)
+    | some none => return (s, "r -|" ++ dump s)
+    | none => return (s, "fail|")
+  | "walk" =>
+    let n ← (← j.getObjVal? "n").getNat?
+    let b ← (← j.getObjVal? "bfs").getBool?
+    let c ← (← j.getObjVal? "prune").getStr?
+    match opWalk b (fun m => (s.h m).cls == c) fuel s.h n with
+    | some l => return (s, "r " ++ ",".intercalate (l.map toString) ++ "|" ++ dump s)
+    | none => return (s, "fail|")
+  | "find_all" =>
+    let n ← (← j.getObjVal? "n").getNat?
+    let b ← (← j.getObjVal? "bfs").getBool?
+    let c ← (← j.getObjVal? "cls").getStr?
+    match opFindAll b (fun k => k == c) fuel s.h n with
+    | some l => return (s, "r " ++ ",".intercalate (l.map toString) ++ "|" ++ dump s)
+    | none => return (s, "fail|")
   | "repair" =>
     let n ← (← j.getObjVal? "n").getNat?
     let s' : St := { s with h := simplifyRepair s.h n }
